@@ -532,6 +532,9 @@ def r6_sweep(ctx, repo):
                 problems.append("an individual is not built from its own generated vector (%s)" % text(bt))
         elif isinstance(bt, ast.ListComp) and bt.generators[0].ifs:
             problems.append("not every generated vector becomes an individual (%s)" % text(bt))
+        elif bt is not None and (access_path(bt) or "").endswith(".problem.individuals"):
+            problems.append("the sweep evaluates %s, the problem's whole list of recorded individuals, not the designs of its generator: designs recorded "
+                            "earlier and not yet evaluated are evaluated too, before the generator's" % text(bt))
         else:
             unknown.append("the evaluated batch %s is not recognised as one individual per generated vector" % (text(bt)[:100] if bt is not None else "?"))
     if built is not None:
